@@ -195,6 +195,7 @@ func (c *vC12) checkTuples(t *testing.T, n int, blocks []*vBlock) {
 						return
 					}
 					c.st.out("tuple:tamper-rejected")
+					c.sample("tuple/rejected", map[string]any{"chain": n, "range": []uint64{start, end}, "height": height, "operator": op, "verify": err.Error()})
 				}
 				cl := func() *coremerkle.Proof { return vCloneCoreProofs([]*coremerkle.Proof{mp})[0] }
 				for h2 := uint64(1); h2 <= head; h2++ {
